@@ -55,18 +55,21 @@ Definition check_classify (w : width) (n : Z) : bool :=
   | IValue m => (m =? n) && (wmin w + 8 <=? n)
   end && (raw_of w (classify w n) =? n).
 
-Definition zrange (lo : Z) (len : nat) : list Z := map (fun i => lo + Z.of_nat i) (seq 0 len).
+Fixpoint zrange (lo : Z) (len : nat) : list Z :=
+  match len with O => [] | S k => lo :: zrange (lo + 1) k end.
 
 Lemma int8_classify_exhaustive : forallb (check_classify W8) (zrange (-128) (Z.to_nat 256)) = true.
 Proof. vm_compute. reflexivity. Qed.
 
-Lemma int16_classify_exhaustive : forallb (check_classify W16) (zrange (-32768) (Z.to_nat 65536)) = true.
+Lemma int16_classify_exhaustive :
+  forallb (check_classify W16) (zrange (-32768) (Z.to_nat 65536)) = true.
 Proof. vm_compute. reflexivity. Qed.
 
-Lemma in_zrange : forall lo len n, lo <= n < lo + Z.of_nat len -> In n (zrange lo len).
+Lemma in_zrange : forall len lo n, lo <= n < lo + Z.of_nat len -> In n (zrange lo len).
 Proof.
-  intros lo len n H. unfold zrange. apply in_map_iff. exists (Z.to_nat (n - lo)).
-  split; [lia|]. apply in_seq. lia.
+  induction len as [|k IH]; intros lo n H; [lia|].
+  cbn [zrange]. destruct (Z.eq_dec lo n) as [E|E]; [left; exact E|right].
+  apply IH. lia.
 Qed.
 
 Lemma int8_classify_all : forall n, -128 <= n <= 127 -> check_classify W8 n = true.
@@ -82,10 +85,10 @@ Proof.
 Qed.
 
 (* ---------------------------------------------------------------- width selection *)
-Lemma select_scalar_sound : forall n w, select_scalar n = Some w ->
+Lemma select_scalar_sound : forall n w, n <= 2147483647 -> select_scalar n = Some w ->
   min_value w <= n <= wmax w.
 Proof.
-  intros n w. unfold select_scalar, min_value.
+  intros n w Hi. unfold select_scalar, min_value.
   destruct (0 <=? n) eqn:E0.
   - destruct (n <=? 127) eqn:E1; [intros H; inversion H; subst; cbn; lia|].
     destruct (n <=? 32767) eqn:E2; intros H; inversion H; subst; cbn; lia.
@@ -114,7 +117,7 @@ Qed.
 Lemma select_scalar_minimal : forall n w w', select_scalar n = Some w ->
   min_value w' <= n <= wmax w' -> (wbytes w <= wbytes w')%nat.
 Proof.
-  intros n w w' H H'. pose proof (select_scalar_sound _ _ H) as S. revert H.
+  intros n w w' H H'. revert H.
   unfold select_scalar, min_value in *.
   destruct (0 <=? n) eqn:E0.
   - destruct (n <=? 127) eqn:E1; [intros H; inversion H; destruct w'; cbn; lia|].
@@ -124,39 +127,40 @@ Proof.
     destruct (-2147483640 <=? n) eqn:E3; intros H; inversion H; subst; destruct w'; cbn in *; lia.
 Qed.
 
-Lemma select_minmax_sound : forall mn mx w, select_minmax mn mx = Some w ->
-  min_value w <= mn /\ mx <= wmax w.
-Proof.
-  intros mn mx w. unfold select_minmax, min_value.
-  destruct (-120 <=? mn) eqn:E0.
-  - destruct (mx <=? 127) eqn:E1; [intros H; inversion H; subst; cbn; lia|].
-    destruct (mx <=? 32767) eqn:E2; intros H; inversion H; subst; cbn; try lia.
-    (* W32: mx is only known to be an i32 by the callers *)
-    split; [lia|]. Abort.
-
 (* scan bounds: every entry lies between the scanned min and max; a missing entry pulls 0 in *)
+Lemma scan_cons : forall acc v vs, scan acc (v :: vs) = scan (scan_step acc v) vs.
+Proof. reflexivity. Qed.
+
 Lemma scan_step_mono : forall vs acc, fst (scan acc vs) <= fst acc /\ snd acc <= snd (scan acc vs).
 Proof.
-  induction vs as [|v vs IH]; intros acc; cbn [scan fold_left]; [lia|].
-  specialize (IH (scan_step acc v)). unfold scan in IH. unfold scan_step in *. cbn [fst snd] in *. lia.
+  induction vs as [|v vs IH]; intros acc.
+  - unfold scan. cbn [fold_left]. lia.
+  - rewrite scan_cons. specialize (IH (scan_step acc v)).
+    assert (fst (scan_step acc v) <= fst acc /\ snd acc <= snd (scan_step acc v)) as S
+      by (unfold scan_step; cbn [fst snd]; lia).
+    lia.
 Qed.
 
 Lemma scan_bounds : forall vs acc n, In (Some n) vs ->
   fst (scan acc vs) <= n <= snd (scan acc vs).
 Proof.
   induction vs as [|v vs IH]; intros acc n HIn; [destruct HIn|].
-  cbn [scan fold_left]. destruct HIn as [E|HIn].
+  rewrite scan_cons. destruct HIn as [E|HIn].
   - subst v. pose proof (scan_step_mono vs (scan_step acc (Some n))) as M.
-    unfold scan in *. unfold scan_step in M at 2 4. cbn [fst snd] in M. lia.
+    assert (fst (scan_step acc (Some n)) <= n <= snd (scan_step acc (Some n))) as S
+      by (unfold scan_step; cbn [fst snd]; lia).
+    lia.
   - apply (IH (scan_step acc v) n HIn).
 Qed.
 
 Lemma scan_missing : forall vs acc, In None vs -> fst (scan acc vs) <= 0 <= snd (scan acc vs).
 Proof.
   induction vs as [|v vs IH]; intros acc HIn; [destruct HIn|].
-  cbn [scan fold_left]. destruct HIn as [E|HIn].
+  rewrite scan_cons. destruct HIn as [E|HIn].
   - subst v. pose proof (scan_step_mono vs (scan_step acc None)) as M.
-    unfold scan in *. unfold scan_step in M at 2 4. cbn [fst snd] in M. lia.
+    assert (fst (scan_step acc None) <= 0 <= snd (scan_step acc None)) as S
+      by (unfold scan_step; cbn [fst snd]; lia).
+    lia.
   - apply (IH (scan_step acc v) HIn).
 Qed.
 
@@ -166,8 +170,8 @@ Lemma scan_range : forall vs acc,
   -2147483648 <= fst acc -> snd acc <= 2147483647 ->
   -2147483648 <= fst (scan acc vs) /\ snd (scan acc vs) <= 2147483647.
 Proof.
-  induction vs as [|v vs IH]; intros acc H Ha Hb; cbn [scan fold_left]; [lia|].
-  apply IH.
+  induction vs as [|v vs IH]; intros acc H Ha Hb; [unfold scan; cbn [fold_left]; lia|].
+  rewrite scan_cons. apply IH.
   - intros n Hn. apply H. right. exact Hn.
   - destruct v as [n|]; unfold scan_step; cbn [fst snd]; [specialize (H n (or_introl eq_refl))|]; lia.
   - destruct v as [n|]; unfold scan_step; cbn [fst snd]; [specialize (H n (or_introl eq_refl))|]; lia.
@@ -230,7 +234,7 @@ Proof.
   - replace (n mod wmod w) with (n + wmod w).
     + destruct (n + wmod w <=? wmax w) eqn:E; destruct w; cbn in *; lia.
     + symmetry. rewrite <- (Z.mod_add n 1 (wmod w)) by (destruct w; cbn; lia).
-      apply Z.mod_small. destruct w; cbn in *; lia.
+      rewrite Z.mul_1_l. apply Z.mod_small. destruct w; cbn in *; lia.
 Qed.
 
 Lemma take_app : forall k (x r : list N), length x = k -> take k (x ++ r) = Some (x, r).
